@@ -12,11 +12,18 @@
 //!                                request byte (the session ends when it sees EOF) -> `prefix-ok` iff
 //!                                what the client read is a prefix of the expected reply sequence
 //!   `idle <ms>`                  session_timeout = ms, the client stays silent -> `closed`
+//!   `bp <splitseed> <sndbuf> <rcvbuf> <delay_ms> <chunk> <order>`   write backpressure: the proxy-side socket gets
+//!                                SO_SNDBUF = sndbuf, the client SO_RCVBUF = rcvbuf (0 = kernel default), the client
+//!                                starts reading `delay_ms` after its last request byte, `chunk` bytes per read with
+//!                                pauses, and sends nothing more; requests of mode `L<n>` are answered by a bulk
+//!                                string of n bytes (id, then filler) -> the replies read, as for `go`
 //! The Lean driver runs `Um.Session.step` on the same script (`request` per req line, then per id of
 //! `order` the sends / drop of its mode, `pump`, `writeOne`*).
 //!
 //! Oracle (no model): exactly one reply per request, in request order, the i-th reply being the
-//! first value sent on the i-th request's oneshot (Dropped when dropped); a second send is refused.
+//! first value sent on the i-th request's oneshot (Dropped when dropped); a second send is refused;
+//! under write backpressure every reply arrives completely (a reply prefix followed by 3 s without a byte,
+//! while the client keeps reading and sends nothing, is silence).
 use futures::future::Either;
 use serde_json::json;
 use std::collections::BTreeMap;
@@ -69,6 +76,23 @@ fn ok_reply(req: Box<RespPacket>, tag: u64) -> Result<Box<TaskReply>, CommandErr
     Ok(Box::new(TaskReply::new(req, Box::new(pkt), Slowlog::new(0, false))))
 }
 
+fn big_payload(id: u64, n: usize) -> Vec<u8> {
+    let mut v = id.to_string().into_bytes();
+    while v.len() < n {
+        v.push(b'x');
+    }
+    v
+}
+
+fn big_reply(req: Box<RespPacket>, id: u64, n: usize) -> Result<Box<TaskReply>, CommandError> {
+    let pkt = RespPacket::Data(Resp::Bulk(BulkStr::Str(big_payload(id, n))));
+    Ok(Box::new(TaskReply::new(req, Box::new(pkt), Slowlog::new(0, false))))
+}
+
+fn big_size(mode: &str) -> Option<usize> {
+    mode.strip_prefix('L').and_then(|s| s.parse().ok())
+}
+
 fn complete(table: &Arc<Mutex<Table>>, id: u64, mode: &str) {
     let (mut s, req) = match table.lock().unwrap().senders.remove(&id) {
         Some(x) => x,
@@ -106,7 +130,11 @@ fn complete(table: &Arc<Mutex<Table>>, id: u64, mode: &str) {
             let _ = s.send(Err(CommandError::Io(std::io::Error::from(std::io::ErrorKind::BrokenPipe))));
             second = Some(s.send(ok_reply(req2, id)));
         }
-        _ => { /* drop */ }
+        m => {
+            if let Some(n) = big_size(m) {
+                let _ = s.send(big_reply(req, id, n));
+            } /* else: drop */
+        }
     }
     if let Some(r) = second {
         let mut t = table.lock().unwrap();
@@ -121,6 +149,7 @@ fn complete(table: &Arc<Mutex<Table>>, id: u64, mode: &str) {
 fn expected(id: u64, mode: &str) -> String {
     match mode {
         "ok" | "dbl" => format!("r{}", id),
+        m if big_size(m).is_some() => format!("r{}", id),
         "eio" | "errok" => "E:Io".to_string(),
         "eun" => "E:UnexpectedResponse".to_string(),
         "edr" | "drop" => "E:Dropped".to_string(),
@@ -131,8 +160,9 @@ fn expected(id: u64, mode: &str) -> String {
     }
 }
 
-/// parse as many complete replies as `buf` holds
-fn parse_replies(buf: &[u8]) -> Vec<String> {
+/// parse as many complete replies as `buf` holds: (token, payload size); also (have, need) of a
+/// trailing incomplete bulk reply
+fn parse_replies_ext(buf: &[u8]) -> (Vec<(String, usize)>, Option<(usize, usize)>) {
     let mut out = vec![];
     let mut i = 0;
     let find_crlf = |from: usize| -> Option<usize> {
@@ -142,50 +172,95 @@ fn parse_replies(buf: &[u8]) -> Vec<String> {
                 return Some(j);
             }
             j += 1;
+            if j > from + 64 {
+                return None;
+            }
         }
         None
     };
+    let mut partial = None;
     while i < buf.len() {
         let e = match find_crlf(i) {
             Some(e) => e,
-            None => break,
+            None => {
+                partial = Some((buf.len() - i, 0));
+                break;
+            }
         };
         match buf[i] {
             b'$' => {
                 let n = digits(&buf[i + 1..e]) as usize;
                 let start = e + 2;
                 if start + n + 2 > buf.len() {
+                    partial = Some((buf.len() - i, start + n + 2 - i));
                     break;
                 }
-                out.push(format!("r{}", digits(&buf[start..start + n])));
+                let payload = &buf[start..start + n];
+                let nd = payload.iter().take_while(|b| b.is_ascii_digit()).count();
+                let filler_ok = payload[nd..].iter().all(|b| *b == b'x');
+                if filler_ok && &buf[start + n..start + n + 2] == b"\r\n" {
+                    out.push((format!("r{}", digits(&payload[..nd])), n));
+                } else {
+                    out.push(("?".to_string(), n));
+                }
                 i = start + n + 2;
             }
             b'-' => {
                 let line = String::from_utf8_lossy(&buf[i + 1..e]).to_string();
                 let kind = line.strip_prefix("Err cmd error ").unwrap_or("?");
                 let kind = kind.split('(').next().unwrap_or("?");
-                out.push(format!("E:{}", kind));
+                out.push((format!("E:{}", kind), 0));
                 i = e + 2;
             }
             _ => {
-                out.push("?".to_string());
+                out.push(("?".to_string(), 0));
                 i = e + 2;
             }
         }
     }
-    out
+    (out, partial)
+}
+
+fn parse_replies(buf: &[u8]) -> Vec<String> {
+    parse_replies_ext(buf).0.into_iter().map(|x| x.0).collect()
+}
+
+#[derive(Clone, Copy)]
+struct Bp {
+    sndbuf: u32,
+    rcvbuf: u32,
+    delay_ms: u64,
+    chunk: usize,
 }
 
 struct CaseRes {
     replies: Vec<String>,
+    sizes: Vec<usize>,
+    partial: Option<(usize, usize)>,
+    bytes: usize,
     second_sends: u64,
     second_accepted: u64,
     eof: bool,
     session_result: String,
 }
 
-async fn run_case(reqs: &[(u64, String)], order: &[u64], splitseed: u64, half: bool, idle_ms: Option<u64>) -> CaseRes {
-    let listener = TcpListener::bind("127.0.0.1:0").await.expect("bind");
+async fn run_case(
+    reqs: &[(u64, String)],
+    order: &[u64],
+    splitseed: u64,
+    half: bool,
+    idle_ms: Option<u64>,
+    bp: Option<Bp>,
+) -> CaseRes {
+    // the accepted (proxy-side) socket inherits the listener's SO_SNDBUF
+    let lsock = tokio::net::TcpSocket::new_v4().expect("socket");
+    if let Some(b) = bp {
+        if b.sndbuf > 0 {
+            lsock.set_send_buffer_size(b.sndbuf).expect("sndbuf");
+        }
+    }
+    lsock.bind("127.0.0.1:0".parse().expect("addr")).expect("bind");
+    let listener: TcpListener = lsock.listen(8).expect("listen");
     let addr = listener.local_addr().expect("addr");
     let table = Arc::new(Mutex::new(Table::default()));
     let notify = Arc::new(tokio::sync::Notify::new());
@@ -222,7 +297,13 @@ async fn run_case(reqs: &[(u64, String)], order: &[u64], splitseed: u64, half: b
         }
     });
     let mut rng = Rng::new(splitseed);
-    let sock = TcpStream::connect(addr).await.expect("connect");
+    let csock = tokio::net::TcpSocket::new_v4().expect("socket");
+    if let Some(b) = bp {
+        if b.rcvbuf > 0 {
+            csock.set_recv_buffer_size(b.rcvbuf).expect("rcvbuf");
+        }
+    }
+    let sock: TcpStream = csock.connect(addr).await.expect("connect");
     let _ = sock.set_nodelay(true);
     let (mut rd, mut wr) = sock.into_split();
     let mut bytes = vec![];
@@ -231,6 +312,8 @@ async fn run_case(reqs: &[(u64, String)], order: &[u64], splitseed: u64, half: b
         bytes.extend_from_slice(format!("*2\r\n$4\r\nECHO\r\n${}\r\n{}\r\n", ids.len(), ids).as_bytes());
     }
     let n = reqs.len();
+    let written_all = Arc::new(tokio::sync::Notify::new());
+    let written_all2 = written_all.clone();
     let writer = async {
         if idle_ms.is_some() {
             return wr;
@@ -259,11 +342,42 @@ async fn run_case(reqs: &[(u64, String)], order: &[u64], splitseed: u64, half: b
         if half {
             let _ = wr.shutdown().await;
         }
+        written_all.notify_one();
         wr
     };
     let reader = async {
         let mut buf = vec![];
         let mut eof = false;
+        if let Some(b) = bp {
+            // a slow client: starts reading late, small reads with pauses, sends nothing more
+            written_all2.notified().await;
+            tokio::time::sleep(Duration::from_millis(b.delay_ms)).await;
+            let mut chunk = vec![0u8; b.chunk.max(1)];
+            let mut since_pause = 0usize;
+            loop {
+                let (done, _) = parse_replies_ext(&buf);
+                if done.len() >= n {
+                    break;
+                }
+                // 3 s without a single byte while replies are owed = silence
+                match tokio::time::timeout(Duration::from_secs(3), rd.read(&mut chunk)).await {
+                    Err(_) => break,
+                    Ok(Ok(0)) | Ok(Err(_)) => {
+                        eof = true;
+                        break;
+                    }
+                    Ok(Ok(k)) => {
+                        buf.extend_from_slice(&chunk[..k]);
+                        since_pause += k;
+                        if b.chunk <= 4096 && since_pause >= 16 * 1024 {
+                            since_pause = 0;
+                            tokio::time::sleep(Duration::from_millis(1)).await;
+                        }
+                    }
+                }
+            }
+            return (buf, eof);
+        }
         let deadline = tokio::time::Instant::now() + Duration::from_secs(8);
         loop {
             if parse_replies(&buf).len() >= n && idle_ms.is_none() {
@@ -294,8 +408,12 @@ async fn run_case(reqs: &[(u64, String)], order: &[u64], splitseed: u64, half: b
     };
     completer.abort();
     let t = table.lock().unwrap();
+    let (ext, partial) = parse_replies_ext(&buf);
     CaseRes {
-        replies: parse_replies(&buf),
+        replies: ext.iter().map(|x| x.0.clone()).collect(),
+        sizes: ext.iter().map(|x| x.1).collect(),
+        partial,
+        bytes: buf.len(),
         second_sends: t.second_sends,
         second_accepted: t.second_send_accepted,
         eof,
@@ -307,6 +425,7 @@ enum Kind {
     Go,
     Half,
     Idle(u64),
+    Bp(Bp),
 }
 
 struct Case {
@@ -373,6 +492,46 @@ fn gen_case(rng: &mut Rng, st: &mut Stats, thorough: bool) -> Case {
     Case { reqs, order, splitseed: rng.next_u64() % 1_000_000, kind }
 }
 
+/// write-backpressure family: large replies, small socket buffers, slow reader
+fn gen_bp(rng: &mut Rng, st: &mut Stats, thorough: bool) -> Case {
+    let n = rng.range(1, if thorough { 8 } else { 4 }) as usize;
+    let sizes: &[usize] = if thorough {
+        &[65_536, 100_000, 262_144, 1_048_576, 4_194_304]
+    } else {
+        &[65_536, 262_144, 1_048_576]
+    };
+    let mut reqs = vec![];
+    let mut total = 0usize;
+    for i in 0..n {
+        let id = 1 + i as u64;
+        let mode = if i == 0 || rng.chance(1, 2) {
+            let mut sz = *rng.pick(sizes);
+            if total + sz > 6 * 1_048_576 {
+                sz = 65_536;
+            }
+            total += sz;
+            format!("L{}", sz)
+        } else {
+            (*rng.pick(&["ok", "ok", "eio", "drop"])).to_string()
+        };
+        st.count(&format!("gen.bp.mode.{}", if mode.starts_with('L') { "large" } else { "small" }));
+        reqs.push((id, mode));
+    }
+    let mut order: Vec<u64> = reqs.iter().map(|r| r.0).collect();
+    if rng.chance(1, 3) {
+        order.reverse();
+    }
+    let bp = match rng.below(5) {
+        0 | 1 => Bp { sndbuf: 4096, rcvbuf: 4096, delay_ms: 200, chunk: 1024 },
+        2 => Bp { sndbuf: 4096, rcvbuf: 4096, delay_ms: *rng.pick(&[0u64, 20, 100]), chunk: *rng.pick(&[512usize, 4096, 65536]) },
+        3 => Bp { sndbuf: 8192, rcvbuf: 2048, delay_ms: 50, chunk: 700 },
+        _ => Bp { sndbuf: 0, rcvbuf: 0, delay_ms: 0, chunk: 65536 },
+    };
+    st.count(&format!("gen.bp.bufs.{}", if bp.sndbuf == 0 { "default" } else { "small" }));
+    st.add("gen.bp.reply_bytes", total as u64);
+    Case { reqs, order, splitseed: rng.next_u64() % 1_000_000, kind: Kind::Bp(bp) }
+}
+
 fn main() {
     let args = parse_args();
     let mut rng = Rng::new(args.seed);
@@ -395,6 +554,15 @@ fn main() {
                     let kind = if t[0] == "go" { Kind::Go } else { Kind::Half };
                     cases.push(Case { reqs: std::mem::take(&mut reqs), order: ord(t.get(2)), splitseed: t[1].parse().unwrap_or(0), kind });
                 }
+                Some("bp") if t.len() >= 6 => {
+                    let bp = Bp {
+                        sndbuf: t[2].parse().unwrap_or(0),
+                        rcvbuf: t[3].parse().unwrap_or(0),
+                        delay_ms: t[4].parse().unwrap_or(0),
+                        chunk: t[5].parse().unwrap_or(1024),
+                    };
+                    cases.push(Case { reqs: std::mem::take(&mut reqs), order: ord(t.get(6)), splitseed: t[1].parse().unwrap_or(0), kind: Kind::Bp(bp) });
+                }
                 Some("idle") if t.len() >= 2 => {
                     cases.push(Case { reqs: std::mem::take(&mut reqs), order: vec![], splitseed: 0, kind: Kind::Idle(t[1].parse().unwrap_or(20)) });
                 }
@@ -405,6 +573,10 @@ fn main() {
         let n = if args.thorough { 12000 } else { 250 };
         for _ in 0..n {
             cases.push(gen_case(&mut rng, &mut s.stats, args.thorough));
+        }
+        let nbp = if args.thorough { 160 } else { 10 };
+        for _ in 0..nbp {
+            cases.push(gen_bp(&mut rng, &mut s.stats, args.thorough));
         }
     }
     let rt = tokio::runtime::Builder::new_current_thread().enable_all().build().expect("runtime");
@@ -422,7 +594,7 @@ fn main() {
             Kind::Go => {
                 let l = format!("go {} {}", case.splitseed, order_txt);
                 replay.push(l.clone());
-                let r = rt.block_on(run_case(&case.reqs, &case.order, case.splitseed, false, None));
+                let r = rt.block_on(run_case(&case.reqs, &case.order, case.splitseed, false, None, None));
                 s.op(&l, &r.replies.join(" "));
                 s.stats.count("gen.kind.go");
                 s.stats.add("out.replies", r.replies.len() as u64);
@@ -445,7 +617,7 @@ fn main() {
             Kind::Half => {
                 let l = format!("half {} {}", case.splitseed, order_txt);
                 replay.push(l.clone());
-                let r = rt.block_on(run_case(&case.reqs, &case.order, case.splitseed, true, None));
+                let r = rt.block_on(run_case(&case.reqs, &case.order, case.splitseed, true, None, None));
                 let ok = r.replies.len() <= exp.len() && (0..r.replies.len()).all(|i| exp[i] == r.replies[i]);
                 s.op(&l, if ok { "prefix-ok" } else { "prefix-bad" });
                 s.stats.count("gen.kind.half");
@@ -458,10 +630,34 @@ fn main() {
                     s.stats.count("out.half.no_eof");
                 }
             }
+            Kind::Bp(bp) => {
+                let l = format!("bp {} {} {} {} {} {}", case.splitseed, bp.sndbuf, bp.rcvbuf, bp.delay_ms, bp.chunk, order_txt);
+                replay.push(l.clone());
+                let r = rt.block_on(run_case(&case.reqs, &case.order, case.splitseed, false, None, Some(bp)));
+                s.op(&l, &r.replies.join(" "));
+                s.stats.count("gen.kind.bp");
+                s.stats.add("out.bp.bytes_read", r.bytes as u64);
+                if r.replies.len() != exp.len() {
+                    let what = match r.partial {
+                        Some((have, need)) => format!(
+                            "C08: silence under write backpressure: {} of {} replies complete, reply {} truncated after {} of {} bytes, then nothing for 3 s although the client keeps reading and sends nothing (session: {})",
+                            r.replies.len(), exp.len(), r.replies.len(), have, need, r.session_result),
+                        None => format!(
+                            "C08: silence under write backpressure: {} of {} replies arrived ({} bytes), then nothing for 3 s (session: {})",
+                            r.replies.len(), exp.len(), r.bytes, r.session_result),
+                    };
+                    s.stats.oracle_failure(c, &what, "", replay.clone());
+                } else if let Some(i) = (0..exp.len()).find(|i| exp[*i] != r.replies[*i]) {
+                    s.stats.oracle_failure(c, &format!("C08: reply {} is {} but request {} ({}) is owed {}", i, r.replies[i], case.reqs[i].0, case.reqs[i].1, exp[i]), "", replay.clone());
+                } else if let Some(i) = (0..exp.len()).find(|i| big_size(&case.reqs[*i].1).map(|n| n != r.sizes[*i]).unwrap_or(false)) {
+                    s.stats.oracle_failure(c, &format!("C08: reply {} has {} payload bytes, request {} is owed {}", i, r.sizes[i], case.reqs[i].0, case.reqs[i].1), "", replay.clone());
+                }
+                s.stats.nontrivial_case(&replay.join("|"));
+            }
             Kind::Idle(ms) => {
                 let l = format!("idle {}", ms);
                 replay.push(l.clone());
-                let r = rt.block_on(run_case(&[], &[], 0, false, Some(ms)));
+                let r = rt.block_on(run_case(&[], &[], 0, false, Some(ms), None));
                 let ok = r.eof && r.replies.is_empty();
                 s.op(&l, if ok { "closed" } else { "open" });
                 s.stats.count("gen.kind.idle");
